@@ -428,9 +428,18 @@ func formatGB(buf *strings.Builder, gb float32) {
 		}
 		gb = -gb
 	}
+	if gb >= 1<<40 {
+		// Every float32 this large is a whole number, and multiplying by
+		// 1024 below could overflow.
+		if _, err := buf.Write(strconv.AppendFloat(nil, float64(gb), 'f', -1, 32)); err != nil {
+			panic(err)
+		}
+		return
+	}
 	mb := int64(gb * 1024)
 	var b [20]byte
-	if _, err := buf.Write(strconv.AppendInt(b[:0], mb/1024, 10)); err != nil {
+	whole := mb / 1024
+	if _, err := buf.Write(strconv.AppendInt(b[:0], whole, 10)); err != nil {
 		panic(err)
 	}
 	mb = mb % 1024
@@ -443,7 +452,8 @@ func formatGB(buf *strings.Builder, gb float32) {
 	digits := 4
 	scale := int64(10000)
 	// Figure out how many digits are actually required.
-	for digits > 0 && ((decFrac-decFrac%10)*1024+scale-1)/scale == mb {
+	for digits > 0 && ((decFrac-decFrac%10)*1024+scale-1)/scale == mb &&
+		gbRoundTrips(whole, decFrac/10, digits-1, gb) {
 		scale /= 10
 		decFrac /= 10
 		digits--
@@ -465,6 +475,24 @@ func formatGB(buf *strings.Builder, gb float32) {
 	if _, err := buf.Write(b[:digits]); err != nil {
 		panic(err)
 	}
+}
+
+// gbRoundTrips returns true if whole.frac, with frac written with the given
+// number of digits, is parsed as a float32 which rounds up to gb.  For values
+// of a few hundred GB the precision of float32 is no longer enough to tell
+// short decimal fractions apart.
+func gbRoundTrips(whole, frac int64, digits int, gb float32) bool {
+	s := strconv.AppendInt(make([]byte, 0, 32), whole, 10)
+	if digits > 0 {
+		s = append(s, '.')
+		f := strconv.AppendInt(nil, frac, 10)
+		for i := len(f); i < digits; i++ {
+			s = append(s, '0')
+		}
+		s = append(s, f...)
+	}
+	v, err := strconv.ParseFloat(string(s), 32)
+	return err == nil && roundUpTo(float32(v), 1024) == gb
 }
 
 func (self *RetainParams) format(printer *printer) {
